@@ -933,7 +933,16 @@ class Ctx:
         s.nq_unknown = 0
         s.t_solver = 0.0
         s.divs = []
+        s.soft = []
         s.max_forks = 4096
+
+    @staticmethod
+    def prefer(b):
+        """a condition counterexample models should satisfy when they can (never part of the path condition): used to steer witnesses away from
+        measure-zero corners the real code resolves in an unspecified way (ties in argsort)"""
+        c = Ctx.cur
+        if c is not None and isinstance(b, SymB) and len(c.soft) < 2000:
+            c.soft.append(b.t)
 
     @staticmethod
     def note_div(den):
@@ -947,6 +956,7 @@ class Ctx:
         s.pc = list(s.assumptions)
         s.todo = []
         s.divs = []
+        s.soft = []
         while s.depth > 0:
             s.solver.pop()
             s.depth -= 1
